@@ -115,6 +115,8 @@ def judge_steps(ck, desc, cls, res, t, pp, m_i, m_f, calls=0):
 
 
 def finalize_shard(ck):
+    for k_, v_ in sim.TRAP.events.items():
+        ck.count(f"fp_events.{k_}", v_)
     R = sim.REACH
     for label in R.total:
         ck.reach[label] = set(R.hit[label] & R.total[label])
